@@ -27,8 +27,9 @@ RULE = ("source {raw, compressed_segmentation, jpeg} x {deep gzip, flat "
         "{4 layouts, sharded(1,1,0) raw, sharded(2,1,1) gzip} x destination "
         "data type {same, every wider Neuroglancer type} x {--copy-info, "
         "pre-existing info}; two-scale sources with different chunk sizes "
-        "per scale, 1-3 channels, position-coded voxels. The full product "
-        "(3744 conversions) runs in both tiers. "
+        "per scale (cubic 2^3/4^3, and non-cubic (2,4,1)/(4,1,2) for "
+        "unsharded pairs), 1-3 channels, position-coded voxels. The full product "
+        "(about 4500 conversions) runs in both tiers. "
         "Non-trivial: encoding, layout or data type differs between source "
         "and destination.")
 ASSUMPTIONS = [
@@ -55,9 +56,13 @@ def sharding(t, enc):
             "minishard_index_encoding": enc, "data_encoding": enc}
 
 
-def make_info(dtype, nch, enc, storage):
+ANISO = ([2, 4, 1], [4, 1, 2])     # non-cubic chunk sizes (unsharded only)
+
+
+def make_info(dtype, nch, enc, storage, aniso=False):
     scales = []
-    for i, (size, cs) in enumerate(((SIZE0, CS0), (SIZE1, CS1))):
+    for i, (size, cs) in enumerate(((SIZE0, ANISO[0] if aniso else CS0),
+                                    (SIZE1, ANISO[1] if aniso else CS1))):
         s = {"key": "s%d" % i, "size": size, "chunk_sizes": [cs],
              "resolution": [2 ** i] * 3, "voxel_offset": [0, 0, 0],
              "encoding": enc["encoding"]}
@@ -123,8 +128,9 @@ def _eval_in(col, case, d):
     root = os.path.join(d, "srv")
     src = os.path.join(root, "ds")
     os.makedirs(src)
+    aniso = case.get("aniso_chunks", False)
     sinfo = make_info(case["dtype"], case["channels"], case["src_enc"],
-                      src_st)
+                      src_st, aniso)
     sandbox.install_atexit_capture()
     try:
         acc = accessor.get_accessor_for_url(src, acc_options(src_st))
@@ -148,7 +154,7 @@ def _eval_in(col, case, d):
     dst = os.path.join(d, "dst")
     os.makedirs(dst)
     dinfo = make_info(case["dst_dtype"], case["channels"], case["dst_enc"],
-                      dst_st)
+                      dst_st, aniso)
     if not case["copy_info"]:
         with open(os.path.join(dst, "info"), "w") as f:
             json.dump(dinfo, f)
@@ -269,6 +275,18 @@ def cases(tier):
                                                   or dst_enc != src_enc):
                                     continue
                                 n += 1
+                                if (src_st["kind"] == "file"
+                                        and dst_st["kind"] == "file"
+                                        and n % 2 == 0):
+                                    out.append({
+                                        "dtype": dtype, "channels": nch,
+                                        "src_enc": src_enc,
+                                        "src_storage": src_st, "http": http,
+                                        "dst_enc": dst_enc,
+                                        "dst_storage": dst_st,
+                                        "dst_dtype": dst_dtype,
+                                        "copy_info": copy_info,
+                                        "aniso_chunks": True})
                                 out.append({
                                     "dtype": dtype, "channels": nch,
                                     "src_enc": src_enc,
